@@ -5,6 +5,7 @@ index/slice/unwrap/overflow-checked subtraction an explicit panic outcome guarde
 -/
 import JsonbModel.Proofs.JsonParserTotal
 import JsonbModel.Proofs.StrictSubset
+import JsonbModel.Proofs.RelaxedBound
 import JsonbModel.Proofs.JsonParserFuel
 import JsonbModel.Proofs.JsonParserExact
 import JsonbModel.Proofs.JsonParserRender
@@ -53,5 +54,19 @@ theorem C02_accepts_or_rejects (t : Bytes) : (∃ v, parseValue t = .ok v) ∨ (
 /-- what the crate rejects, RFC 8259 rejects -/
 theorem C02_rejected_is_not_rfc8259 {t : Bytes} {e : String} (h : parseValue t = .err e) : Strict.parse t = none :=
   strict_none_of_err h
+
+/-- **exactly the documented language**: `Relaxed.parse` (Spec/RelaxedJson.lean) is RFC 8259 plus
+exactly the listed relaxations — form feed and the escaped white-space texts `\n` `\r` `\t`
+`\x0C` between tokens, raw control characters inside strings, `\u{XXXX}` with exactly four digits,
+unpaired surrogate escapes kept as literal text, numbers beyond the double range as ±infinity —
+written independently of the crate's parser.  The crate accepts a byte string exactly when this
+specification does, with the same value; everything else is rejected with an error -/
+theorem C02_exactly_the_documented_language (t : Bytes) (v : JV) :
+    parseValue t = .ok v ↔ Relaxed.parse t = some v := relaxed_exact t v
+theorem C02_everything_else_rejected (t : Bytes) :
+    Relaxed.parse t = none ↔ ∃ e, parseValue t = .err e := relaxed_rejects_iff t
+/-- the documented language extends RFC 8259 -/
+theorem C02_relaxed_extends_rfc8259 {t : Bytes} {v : JV} (h : Strict.parse t = some v) :
+    Relaxed.parse t = some v := strict_relaxed h
 
 end Jsonb.Props
